@@ -35,6 +35,7 @@ import (
 	"math/rand"
 	"strings"
 	"sync/atomic"
+	"time"
 
 	"github.com/iotaledger/hive.go/app/daemon"
 	"verif/harness/internal/gdump"
@@ -119,12 +120,16 @@ func (l *life) judge(gs []gdump.G) {
 				continue
 			}
 			// calibration: the blocked caller is where the harness believes it is (exported frame only)
-			frame := exportedRunFrame
-			if k.kind == "shutdownandwait" {
-				frame = exportedShutdownFrame
+			g, ok := gdump.Find(gs, k.a.ID())
+			if ok {
+				if k.kind == "shutdownandwait" {
+					ok = inShutdownCall(g)
+				} else {
+					ok = inRunCall(g)
+				}
 			}
-			if g, ok := gdump.Find(gs, k.a.ID()); !ok || !g.Has(frame) {
-				l.c.Inconclusive(fmt.Sprintf("life cfg %d: busy %s caller shows no exported %s frame in the snapshot", l.seed, k.kind, frame))
+			if !ok {
+				l.c.Inconclusive(fmt.Sprintf("life cfg %d: busy %s caller shows no exported %s frame in the snapshot", l.seed, k.kind, apiName[k.kind]))
 				l.dirty = true
 				continue
 			}
@@ -301,7 +306,7 @@ func (l *life) run() bool {
 	rng := l.rng
 	l.mode = "life"
 	l.prevLive = map[*wk]bool{}
-	l.d = daemon.New()
+	l.d = l.newDaemon()
 	l.reg = l.actor("registrar")
 	l.pool = genPool(rng, 1+rng.Intn(4))
 	startMode := "start"
@@ -312,8 +317,20 @@ func (l *life) run() bool {
 		startMode = "run"
 	}
 	nPre := 1 + rng.Intn(5)
+	patient := l.holdMs > 0
+	if patient {
+		// patience run: at least two distinct orders at shutdown, the daemon is started, nobody leaves early
+		l.pool = genPool(rng, 2+rng.Intn(3))
+		nPre = 3 + rng.Intn(3)
+		if startMode == "never" {
+			startMode = "start"
+		}
+	}
 	for i := 0; i < nPre && !l.dirty; i++ {
 		o, has := l.pickOrder(false)
+		if patient && i < 2 {
+			o, has = l.pool[i], true
+		}
 		l.registerNew(o, has, true, "before Start")
 	}
 	if l.dirty {
@@ -345,7 +362,7 @@ func (l *life) run() bool {
 			o, has := l.pickOrder(true)
 			l.registerNew(o, has, false, "daemon running")
 		case op < 8:
-			if live := l.liveWorkers(); len(live) > 0 {
+			if live := l.liveWorkers(); len(live) > 0 && !patient {
 				w := live[rng.Intn(len(live))]
 				w.finishEarly()
 				l.tr("worker %s (order %d) returns on its own before shutdown", w.name, w.order)
@@ -387,6 +404,14 @@ func (l *life) run() bool {
 	if atShutdown > 0 {
 		lateAt = rng.Intn(atShutdown)
 	}
+	if patient && !l.dirty {
+		// a Run and a second ShutdownAndWait arrive and park; then every gate stays shut for a long time
+		l.launch("run", "winding-down")
+		l.launch("shutdownandwait", "winding-down")
+		l.step()
+		l.patientHold("highest order gated")
+	}
+	tailHeld := false
 	partition := func() (cand, unc []*wk) {
 		for _, w := range l.liveWorkers() {
 			if w.cancelled() {
@@ -404,6 +429,14 @@ func (l *life) run() bool {
 		}
 		if len(cand) == 0 {
 			break // stalled shutdown: already reported by the ordering invariant
+		}
+		if patient && !tailHeld && step > 0 && len(unc) == 0 {
+			// only the lowest order is left (everything live is cancelled): the final wait is held as well
+			tailHeld = true
+			l.patientHold("last order gated")
+			if l.dirty {
+				break
+			}
 		}
 		if step == lateAt || rng.Intn(3) == 0 {
 			nCalls := 1 + rng.Intn(2)
@@ -471,8 +504,31 @@ func (l *life) run() bool {
 	return l.cleanup()
 }
 
+// patientHold keeps every gate shut for holdMs of wall time (a wait inside the daemon that gives up or
+// changes its behaviour after some time gets the chance to do so) and then takes the usual step. The
+// duration decides nothing: the verdict is the structural one of step() – while the harness holds the
+// gates no lower-order context may be cancelled and no ShutdownAndWait/Run may have returned.
+func (l *life) patientHold(what string) {
+	held := len(l.liveWorkers())
+	blocked := len(l.blockedCalls())
+	l.tr("patience: all gates stay shut for %d ms (%s; %d workers inside their handlers, %d calls blocked)", l.holdMs, what, held, blocked)
+	time.Sleep(time.Duration(l.holdMs) * time.Millisecond)
+	l.step()
+	l.c.Count("patience_holds", 1)
+	if l.withLogger {
+		l.c.Count("patience_holds_with_debug_logger", 1)
+	}
+	if l.pkgLevel {
+		l.c.Count("patience_holds_package_level_api", 1)
+	}
+	l.c.Count("patience_workers_held", held)
+	l.c.Count("patience_calls_blocked_before_hold", blocked)
+	l.c.Count("patience_calls_blocked_after_hold", len(l.blockedCalls()))
+}
+
 func (l *life) finish() {
 	l.c.Count("life_configurations", 1)
+	l.countAPI("life")
 	l.c.Distinct("life_shapes", strings.Join(l.shape, " "))
 	l.c.Distinct("life_release_orders", strings.Join(l.shape, " ")+"|"+strings.Join(l.opened, ","))
 	if l.c.WantSample() && len(l.calls) >= 4 && len(l.opened) >= 2 {
@@ -480,8 +536,20 @@ func (l *life) finish() {
 	}
 }
 
-func runLife(c *vf.Ctx, seed int64, idx int) bool {
-	s := &scen{c: c, seed: seed, idx: idx, rng: rand.New(rand.NewSource(seed)), qrng: rand.New(rand.NewSource(seed ^ 0x5eed0c20)), byName: map[string]*wk{}, viols: map[string]bool{}, flags: map[string]bool{}}
+// countAPI: which API surface / logger configuration the scenario ran on.
+func (s *scen) countAPI(fam string) {
+	switch {
+	case s.pkgLevel && s.withLogger:
+		s.c.Count(fam+"_on_default_daemon_with_debug_logger", 1)
+	case s.pkgLevel:
+		s.c.Count(fam+"_on_default_daemon", 1)
+	}
+}
+
+func runLife(c *vf.Ctx, seed int64, idx int) bool { return runLifeOn(c, seed, idx, false, false, 0) }
+
+func runLifeOn(c *vf.Ctx, seed int64, idx int, pkg, logger bool, holdMs int) bool {
+	s := &scen{pkgLevel: pkg, withLogger: logger, holdMs: holdMs, c: c, seed: seed, idx: idx, rng: rand.New(rand.NewSource(seed)), qrng: rand.New(rand.NewSource(seed ^ 0x5eed0c20)), byName: map[string]*wk{}, viols: map[string]bool{}, flags: map[string]bool{}}
 	l := &life{scen: s}
 	return l.run()
 }
